@@ -43,6 +43,8 @@ def check(tier='quick', seed=0):
                 return fail(clause='computed frequency outside the requested band', fmin=fmin, fmax=fmax)
             if len(fc) < 2:
                 continue
+            if copt and len(fc) < 4:
+                continue        # SciPy's cubic interpolating spline needs at least four points (its precondition: 'm must be > k')
             data = (rng.standard_normal(fc.size) + 2.5) * np.exp(-fc / 30) + 1j * (-rng.uniform(0.1, 1.0, fc.size)) * fc / (1 + fc)
             try:
                 out = F.interpolate(data)
